@@ -159,7 +159,7 @@ fn literal_words(n: usize) -> Vec<Vec<u32>> {
 
 fn run_c01(run: &mut Run) {
     run.rule("G-gds libraries built by construction: 0-5 structs x 0-8 elements of all seven kinds, every optional field independently present, strings of length 0/1/2/odd/even incl. non-ASCII, full-range coordinates, in-range reals, records straddling the 16-bit limit. Non-trivial = write succeeded and some element carries an optional field, property, or empty/odd-length string; distinct by hash of the model.");
-    run.assume("strings never contain NUL (the format's pad byte); reals lie in 16^-64 <= |x| < 16^63 or are zero");
+    run.assume("strings never contain NUL (the format's pad byte); reals lie in the normalised range 16^-65 <= |x| < 16^63 or are zero");
     run.assume("a write error is accepted (the statement allows it); a writer refusing everything trips the vacuity guard");
     run.min_nontrivial = 50;
     run.literals("literals", &literal_words(literal_libs().len()), &c01_literal);
